@@ -27,8 +27,14 @@ type FuncResult struct {
 
 // genFunc generates the obligations of fn against its contract (nil contract: panic sweep only).
 func genFunc(p *Program, w *World, fn *ssa.Function, con *Contract, excepts map[string]string) (res *FuncResult) {
+	return genFuncK(p, w, fn, con, excepts, 0)
+}
+
+// genFuncK: boundK > 0 generates the bounded instance used only to search for replayable inputs.
+func genFuncK(p *Program, w *World, fn *ssa.Function, con *Contract, excepts map[string]string, boundK int) (res *FuncResult) {
 	start := time.Now()
 	e := newExec(p, w)
+	e.boundK = boundK
 	e.FnName = displayName(fn)
 	res = &FuncResult{Fn: e.FnName, Key: funcKey(fn), HasContract: con != nil}
 	defer func() {
@@ -74,6 +80,8 @@ func genFunc(p *Program, w *World, fn *ssa.Function, con *Contract, excepts map[
 		fvs = append(fvs, e.freshVal(st0, "fv."+fv.Name(), fv.Type()))
 	}
 	e.entry = st0
+	e.curTop = fn
+	e.topArgs = args
 	// entry environment
 	env := &Env{E: e, Vars: map[string]Val{}, St: st0, Old: st0, Where: "contract of " + e.FnName}
 	for i, prm := range fn.Params {
@@ -145,7 +153,8 @@ func genFunc(p *Program, w *World, fn *ssa.Function, con *Contract, excepts map[
 			bindResults(&env2, con, fn.Signature, r.vals)
 			for _, en := range con.Ensures {
 				t := e.elabClause(&env2, en)
-				e.oblig(r.st, "post", fmt.Sprintf("%s@ret%d", en.ID, ri+1), t, en.Src, fmt.Sprintf("%s:%d", shortFile(en.File), en.Line))
+				po := e.oblig(r.st, "post", fmt.Sprintf("%s@ret%d", en.ID, ri+1), t, en.Src, fmt.Sprintf("%s:%d", shortFile(en.File), en.Line))
+				po.RetVals = r.vals
 			}
 		}
 		_ = rets
